@@ -303,3 +303,8 @@ func Go(f func()) { go f() }
 // Same reports whether two interface values are the same value (identical concrete value or the
 // same symbolic variable).
 func Same(a, b any) bool { return a == b }
+
+// PermuteOnly makes the k-th range over a map in repository code (counted from this call) iterate
+// in every order; PermuteOff stops counting and returns how many eligible ranges were executed.
+func PermuteOnly(k int) {}
+func PermuteOff() int  { return 0 }
